@@ -34,7 +34,22 @@ func ZZVerifC02TornTail() {
 func zzCrash(torn bool) {
 	keys := [2]string{"k0", "k1"}
 	e := zzOpen()
-	rt.Assert(e.VCreate("i0", distance.Euclidean, 2, 4, distance.Float32, "", nil, nil, nil) == nil, "prelude: VCreate succeeds")
+	// base shape of the log before the interrupted operation: 0 = a flushed VCREATE record, 1 = empty because a
+	// snapshot just truncated it (the interrupted write is the first frame of the log), 2 = a fresh database
+	base := 0
+	if torn {
+		base = rt.IntRange("base", 0, 2)
+	}
+	if base != 2 {
+		rt.Assert(e.VCreate("i0", distance.Euclidean, 2, 4, distance.Float32, "", nil, nil, nil) == nil, "prelude: VCreate succeeds")
+	}
+	if base == 1 {
+		rt.Assert(e.SaveSnapshot() == nil, "prelude: SaveSnapshot succeeds")
+		rt.Reach("after-snapshot")
+	}
+	if base == 2 {
+		rt.Reach("fresh")
+	}
 	n := rt.IntRange("n", 0, rt.Param("N", 1))
 	for i := 0; i < n; i++ {
 		zzOp(e, keys, rt.Param("ADMIN", 1) == 1)
@@ -48,7 +63,7 @@ func zzCrash(torn bool) {
 	fsm.Armed = true
 	fsm.TornAll = torn
 	if torn {
-		zzTornOp(e, keys)
+		zzTornOp(e, keys, base == 2)
 	} else {
 		zzOp(e, keys, true)
 	}
@@ -83,8 +98,12 @@ func zzCrash(torn bool) {
 }
 
 // zzTornOp: single-record operations (one journal frame each, plus the inverse record of a link).
-func zzTornOp(e *Engine, keys [2]string) {
-	switch rt.IntRange("top", 0, rt.Param("TORNOPS", 3)) {
+func zzTornOp(e *Engine, keys [2]string, kvOnly bool) {
+	hi := rt.Param("TORNOPS", 3)
+	if kvOnly {
+		hi = 0
+	}
+	switch rt.IntRange("top", 0, hi) {
 	case 0:
 		e.KVSet(keys[0], rt.Bytes("val", 1))
 	case 2:
